@@ -484,3 +484,10 @@ package gostatsd
 //@   ensures  result == nil ==> sent(mc.maps) - old(sent(mc.maps)) == received(mc.maps) - old(received(mc.maps))
 //@   modifies everything
 //@   preserves gostatsd.MetricConsolidator
+
+// SplitByTags is not verified (C15: not decided); callers under contract see it as an arbitrary function.
+//@ func (*MetricMap).SplitByTags
+//@   trusted
+//@   requires mm != nil
+//@   ensures  result != nil && (forall k string :: k in result ==> result[k] != nil)
+//@   modifies everything
